@@ -177,11 +177,13 @@ theorem nonparticipating_zero_coefficient_witness :
       (categorize s []).toOption.map (·.nonparticipating) = some ["A"] := by
   decide
 
-/-- DEFECT (mirrors the code): a system WITHOUT reactions but with substances makes `categorize_substances` raise
-IndexError instead of reporting every substance as nonparticipating. -/
-theorem categorize_no_reactions_defect_witness :
-    categorize ⟨[], [("A", {name := "A"})]⟩ [] = .error .indexError := by
-  decide
+/-- `categorize_substances(checks=())` never raises, and a system without reactions reports every substance as
+nonparticipating (repaired by the fix "stoichiometry matrices of a system without reactions are two-dimensional";
+before it numpy raised IndexError on `net[:, i]`). -/
+theorem categorize_no_reactions (substs : ODict) :
+    categorize ⟨[], substs⟩ [] = .ok ⟨[], [], [], substs.map (·.1)⟩ ∧ ∀ s : RSys, ∃ c, categorize s [] = .ok c := by
+  refine ⟨?_, categorize_nochecks⟩
+  simp [categorize, make_odict_nochecks, categoryOf, RSys.keys]
 
 /-! ## identify_equilibria, substance_participation, per_reaction_effect_on_substance -/
 
@@ -251,6 +253,30 @@ theorem add_spec (a b : RSys) (ha : a.keys.Nodup) (hb : b.keys.Nodup) :
   · exact okeys_odictUpdate a.substs b.substs hb
   · exact fun k => lookup_odictUpdate a.substs b.substs hb k
   · exact odictUpdate_nodup a.substs b.substs ha
+
+/-- `ReactionSystem.concatenate([first, …rest])` (repaired code: `rsys = rsys + yes`): the sum holds exactly the
+reactions of `first` followed, system by system, by the reactions of the rest that are not stoichiometric duplicates of
+what was accumulated before that system; the duplicates go, in order, to the second result. A one-element list returns
+that element itself and an empty duplicates system; an empty list raises. -/
+theorem concatenate_spec (first : RSys) (rest : List RSys) :
+    ∃ sum dups, concatenate (first :: rest) = some (sum, dups) ∧
+      (sum.rxns, dups.rxns) = rest.foldl concatRxns (first.rxns, []) ∧
+      (rest = [] → sum = first ∧ dups = ⟨[], []⟩) ∧ concatenate [] = none := by
+  refine ⟨_, _, rfl, ?_, ?_, rfl⟩
+  · exact foldl_concatStep_rxns rest (first, ⟨[], []⟩)
+  · intro h; subst h; exact ⟨rfl, rfl⟩
+
+/-- purity in a history: `concatenate` (like `+`, `subset` and `split`) only APPENDS its results to the store — every
+system that was in the store, in particular the first argument of `concatenate`, is left exactly as it was, so later
+queries on it answer for the system as the user built it. Only `+=` replaces a slot. -/
+theorem concatenate_pure (store store' : List RSys) (op : HOp) (hop : ∀ i j, op ≠ .iadd i j)
+    (h : runOp store op = .ok store') : store <+: store' :=
+  runOp_prefix store store' op hop h
+
+/-- … and along a whole history without `+=` -/
+theorem history_pure (ops : List HOp) (hops : ∀ op ∈ ops, ∀ i j, op ≠ .iadd i j) (store store' : List RSys)
+    (h : runHistory store ops = .ok store') : store <+: store' :=
+  runHistory_prefix ops hops store store' h
 
 /-! ## per-substance arrays and dictionaries -/
 
